@@ -37,6 +37,20 @@ func main() {
 		for _, k := range l.sortedFuncKeys() {
 			fmt.Println(k)
 		}
+	case "writes":
+		E, err := newEngine()
+		if err != nil {
+			fmt.Fprintln(os.Stderr, err)
+			os.Exit(2)
+		}
+		for _, k := range os.Args[2:] {
+			fn := E.L.Funcs[k]
+			if fn == nil {
+				fmt.Println("no such function", k)
+				continue
+			}
+			fmt.Println(k, "writes:", sortedKeys(E.writeSet(fn)))
+		}
 	case "vc":
 		cmdVC(os.Args[2:])
 	case "check":
